@@ -21,6 +21,7 @@ from pycoin.ecdsa.secp256k1 import secp256k1_generator as _G
 from pycoin.encoding.sec import public_pair_to_sec
 
 PROP = "C06"
+EXTRA_PROPS = ["C06compose"]   # composition theorems (see DESIGN.md section 0)
 DRIVER = "C06"
 INTERACTIVE = True
 RULE = ("correspondence: one driver line per call (legacy_sighash / segwit_preimage / segwit_sighash on random "
